@@ -352,3 +352,44 @@ def float_floordiv(t: Term) -> Optional[Term]:
             if not (inty(a) and inty(b)):
                 return x
     return None
+
+
+NARROW_FLOATS = {"numpy.float32", "numpy.float16", "numpy.half", "numpy.single"}
+
+
+def _dtype_name(dt: Term) -> Optional[str]:
+    if dt is None:
+        return None
+    if dt[0] == "mod":
+        return dt[1]
+    if is_const(dt) and isinstance(dt[1], str):
+        return {"float32": "numpy.float32", "f4": "numpy.float32", "float16": "numpy.float16", "f2": "numpy.float16", "single": "numpy.float32", "half": "numpy.float16",
+                "float": "builtins.float", "float64": "numpy.float64", "complex": "builtins.complex", "complex128": "numpy.complex128", "int": "builtins.int"}.get(dt[1], dt[1])
+    if dt[0] == "builtin":
+        return "builtins." + dt[1]
+    return None
+
+
+def dtype_casts(t: Term) -> List[Tuple[str, Term]]:
+    """(dtype name, construct) for every explicit dtype in a value: `dtype=` keywords, `.astype(...)`, `np.float32(...)`-style calls"""
+    out = []
+    for x in walk(t):
+        if x[0] != "call" or not isinstance(x[1], str):
+            continue
+        dt = kw(x, "dtype")
+        if x[1] == ".astype" and len(x[2]) >= 2:
+            dt = x[2][1]
+        if x[1] in ("numpy.array", "numpy.asarray", "numpy.zeros", "numpy.ones", "numpy.empty", "numpy.full") and dt is None:
+            pos = {"numpy.array": 1, "numpy.asarray": 1, "numpy.zeros": 1, "numpy.ones": 1, "numpy.empty": 1, "numpy.full": 2}[x[1]]
+            if len(x[2]) > pos:
+                dt = x[2][pos]
+        nm = _dtype_name(dt) if dt is not None else None
+        if nm:
+            out.append((nm, x))
+        if x[1] in NARROW_FLOATS | {"numpy.float64", "builtins.float"} and x[2]:
+            out.append((x[1], x))
+    return out
+
+
+def narrowing_casts(t: Term) -> List[str]:
+    return [f"{show(x)[:70]} ({nm.split('.')[-1]})" for nm, x in dtype_casts(t) if nm in NARROW_FLOATS]
